@@ -15,7 +15,6 @@ pub fn def() -> PropDef {
         assumptions: BASE_ASSUMPTIONS,
         floor: |t| t.pick(10_000, 100_000),
         run,
-        panics_are_verdict: true,
     }
 }
 
@@ -37,10 +36,11 @@ fn every_boundary(word: &str) -> Vec<usize> {
 macro_rules! total {
     ($cx:expr, $name:expr, $cfg:expr, $body:expr) => {{
         $cx.eval();
-        let r = $cx.guard(|| {
+        let r = $cx.guard_quiet(|| {
             let _ = $body;
         });
-        $cx.check($name, r.is_some(), &|| $cfg, &|| json!({"outcome": "panic"}));
+        let msg = if r.is_none() { $cx.last_panic() } else { String::new() };
+        $cx.check($name, r.is_some(), &|| $cfg, &|| json!({"outcome": "panic", "panic": msg}));
     }};
 }
 
@@ -173,7 +173,7 @@ fn usize_valued(r: &mut Run, n: usize) -> Result<(), MachineryError> {
                 cx.eval();
                 let pen = penalties(*p);
                 let d = || format!("line_widths={:?} penalties={:?}", lw, p);
-                let res = cx.guard(|| textwrap::wrap_algorithms::wrap_optimal_fit(&fr, lw, &pen).map(|l| l.len()));
+                let res = cx.guard_quiet(|| textwrap::wrap_algorithms::wrap_optimal_fit(&fr, lw, &pen).map(|l| l.len()));
                 cx.check("C04-wrap_optimal_fit-returns", res.is_some(), &d, &|| json!({"outcome": "panic"}));
                 if let Some(res) = res {
                     cx.check("C04-no-overflow-error-for-usize-values", res.is_ok(), &d, &|| json!({"outcome": "Err(OverflowError)"}));
